@@ -206,7 +206,7 @@ impl Request {
                     line_parts
                         .next()
                         .to_error(RequestError::Request)?
-                        .trim_start(),
+                        .trim_start_matches([' ', '\t']),
                 );
             }
         }
@@ -305,7 +305,7 @@ impl Request {
                     line_parts
                         .next()
                         .to_error(RequestError::Request)?
-                        .trim_start(),
+                        .trim_start_matches([' ', '\t']),
                 );
             }
         }
